@@ -341,6 +341,12 @@ func Goroutines() int { return 0 }
 // Blocked describes what the other live goroutines wait for.
 func Blocked() string { return "" }
 
+// WaitStuck parks the calling goroutine (a watcher written in the harness)
+// until the program under test is stuck: the timer budget of the path is used
+// up and every goroutine is blocked. The watcher then inspects the state; it
+// is not counted by WaitIdle/Goroutines/Blocked. Natively it never returns.
+func WaitStuck() { select {} }
+
 // WatchGlobals starts recording writes to package-level variables of packages
 // whose import path ends in pkgSuffix (symbolic executor only).
 func WatchGlobals(pkgSuffix string) {}
